@@ -14,6 +14,7 @@ Also decided: update_after_swap performs all its stores on every path; compute_s
 integer cast (a total fee rate above u16 reaches the step whole).
 Also decided: the swap wrappers apply what the loop computed on every successful path (pool update and both token movements); no update is
 made to a copy of the state and dropped.
+Also decided: the protocol's owed fees are zeroed by a collection only (who may call reset_protocol_fees_owed; no other store of 0).
 Not decided: the identity summed over multi-step swaps with numbers."""
 from analysis import cfg, atoms as A, preach, writes, accounts as ACC
 from analysis.ir import callee_path, AnchorMissing
